@@ -137,6 +137,7 @@ type c05PathOut struct {
 	Overloaded bool
 	Watchdog   string
 	Stats      map[string]int64
+	Aliased    []string // results that changed when the caller reused the map it had passed to EmitSync
 }
 
 func c05SafeEmitSync(s *streamsql.Streamsql, row Row) (res map[string]any, err error, pan string) {
@@ -204,7 +205,21 @@ func c05RunPath(sql, path string, rows []Row, expect int) *c05PathOut {
 	switch path {
 	case "sync":
 		for _, row := range rows {
-			res, err, pan := c05SafeEmitSync(s, c05Copy(row).(map[string]any))
+			in := c05Copy(row).(map[string]any)
+			res, err, pan := c05SafeEmitSync(s, in)
+			if pan == "" && err == nil && res != nil {
+				// the call has returned: the caller owns its map again and reuses it for its next reading
+				// (top-level fields only).  The result it was handed must be a value of its own.
+				snap := c05Copy(res).(map[string]any)
+				for k := range in {
+					in[k] = "__reused_by_caller__"
+				}
+				in["__next__"] = 1
+				if core.J(snap) != core.J(res) && len(out.Aliased) < 3 { // (printed form: NaN equals NaN)
+					out.Aliased = append(out.Aliased, fmt.Sprintf("id=%v: EmitSync returned %s; after the caller overwrote the top-level fields of the map it had passed, the same result reads %s", row["id"], trunc05(core.J(snap), 300), trunc05(core.J(res), 300)))
+				}
+				res = snap
+			}
 			if pan != "" {
 				out.Panics = append(out.Panics, fmt.Sprintf("EmitSync(id=%v): %s", row["id"], pan))
 				continue
@@ -405,6 +420,12 @@ func execC05(ctx *core.Ctx, c *c05Case) {
 			a["site"] = strings.SplitN(pan, "(", 2)[0]
 			a["items"] = st.itemKinds()
 			rp.violate("panic", a, fmt.Sprintf("panic reached the caller on path %s: %s; sql=%q", p.name, pan, c.SQL))
+		}
+		for _, al := range p.out.Aliased {
+			a := base()
+			a["star"] = yesNo(st.Star)
+			a["items"] = st.itemKinds()
+			rp.violate("result.shares_callers_map", a, fmt.Sprintf("the result depends on what the caller does with its own map after the call returned (path %s): %s; sql=%q", p.name, al, c.SQL))
 		}
 		if p.out.Watchdog != "" {
 			ctx.Inconclusive("watchdog: " + p.out.Watchdog)
